@@ -34,6 +34,10 @@ type C06Case struct {
 	AggCol string `json:"agg_col,omitempty"`
 	AggSum bool   `json:"agg_sum,omitempty"`
 	SumCol string `json:"sum_col,omitempty"`
+	// union mode: every branch is an aggregate query ("whole" = all-aggregate list without GROUP BY,
+	// "grouped" = key + aggregates with GROUP BY) with the same textual select list
+	Agg    string `json:"agg,omitempty"`
+	AggKey string `json:"agg_key,omitempty"`
 }
 
 func init() {
@@ -158,6 +162,10 @@ func genC06(t *rapid.T) any {
 		return c
 	}
 	nb := rapid.IntRange(2, 4).Draw(t, "nbranches")
+	c.Agg = rapid.SampledFrom([]string{"", "", "", "whole", "grouped"}).Draw(t, "agg")
+	if c.Agg != "" {
+		c.AggKey, c.SumCol = names[0], names[2]
+	}
 	var parts []string
 	for b := 0; b < nb; b++ {
 		key := "t"
@@ -172,13 +180,22 @@ func genC06(t *rapid.T) any {
 		if rapid.IntRange(0, 3).Draw(t, fmt.Sprintf("b%d.haswhere", b)) == 0 {
 			br.Where = genPred(t, tb, &PredSpec{Core: true}, 1, fmt.Sprintf("b%d.w", b))
 		}
-		if b > 0 && rapid.IntRange(0, 4).Draw(t, fmt.Sprintf("b%d.rename", b)) == 0 {
+		if b > 0 && c.Agg == "" && rapid.IntRange(0, 4).Draw(t, fmt.Sprintf("b%d.rename", b)) == 0 {
 			br.Suffix = rapid.SampledFrom([]string{"_2", "x"}).Draw(t, fmt.Sprintf("b%d.suffix", b))
 		}
 		c.Branches = append(c.Branches, br)
 		s := "SELECT " + renderSelect(c.branchItems(br), 0, nil) + " FROM " + key
+		switch c.Agg {
+		case "whole":
+			s = "SELECT COUNT(*) AS n, SUM(" + c.SumCol + ") AS sv FROM " + key
+		case "grouped":
+			s = "SELECT " + c.AggKey + ", COUNT(*) AS n, SUM(" + c.SumCol + ") AS sv FROM " + key
+		}
 		if br.Where != nil {
 			s += " WHERE " + sq.Render(br.Where, nil)
+		}
+		if c.Agg == "grouped" {
+			s += " GROUP BY " + c.AggKey
 		}
 		if b > 0 {
 			if br.All {
@@ -304,6 +321,9 @@ func checkC06(c *C06Case) Result {
 	for i, br := range c.Branches {
 		rows, _ := c.Doc[br.Table].([]any)
 		part, err := refProject(rows, c.branchItems(br), 0, br.Where, env)
+		if c.Agg != "" {
+			part, err = c.refAggBranch(rows, br.Where, env)
+		}
 		if err != nil {
 			discardOrHarness(&res, err)
 			return res
@@ -326,6 +346,9 @@ func checkC06(c *C06Case) Result {
 		}
 	}
 	res.Labels = append(res.Labels, fmt.Sprintf("branches:%d", len(c.Branches)), "ops:"+ops)
+	if c.Agg != "" {
+		res.Labels = append(res.Labels, "aggregate-branches:"+c.Agg)
+	}
 	res.NonTrivial = overlap
 	lastIsUnion := !c.Branches[len(c.Branches)-1].All
 	out := c.Env.Exec(val.CopyMap(c.Doc), c.SQL)
@@ -366,4 +389,41 @@ func checkC06(c *C06Case) Result {
 		res.Violation = fmt.Sprintf("%s\n  limited UNION result contains duplicates: %s", c.SQL, val.JSON(out.Rows))
 	}
 	return res
+}
+
+// refAggBranch is the reference result of one aggregate branch: the rows passing where, as a whole
+// (one row, also for empty input) or grouped by AggKey in first-appearance order.
+func (c *C06Case) refAggBranch(rows []any, where *sq.E, env *sq.Env) ([]any, error) {
+	var passed []any
+	for _, r := range rows {
+		if where != nil {
+			keep, err := sq.EvalBool(where, r.(map[string]any), env)
+			if err != nil {
+				return nil, err
+			}
+			if !keep {
+				continue
+			}
+		}
+		passed = append(passed, r)
+	}
+	if c.Agg == "whole" {
+		return []any{map[string]any{"n": refAgg("COUNT", "", passed), "sv": refAgg("SUM", c.SumCol, passed)}}, nil
+	}
+	var keys []any
+	members := map[string][]any{}
+	for _, r := range passed {
+		k := r.(map[string]any)[c.AggKey]
+		id := val.Canon(k)
+		if _, ok := members[id]; !ok {
+			keys = append(keys, k)
+		}
+		members[id] = append(members[id], r)
+	}
+	out := []any{}
+	for _, k := range keys {
+		m := members[val.Canon(k)]
+		out = append(out, map[string]any{c.AggKey: k, "n": refAgg("COUNT", "", m), "sv": refAgg("SUM", c.SumCol, m)})
+	}
+	return out, nil
 }
